@@ -360,6 +360,81 @@ pub struct GenStats {
     pub family_counts: [u64; workload::N_FAMILIES],
 }
 
+/// A *wrap* session: counters that wrap, generation stamps, "every Nth" logic. For a generic item A of one
+/// family and its relative A' (the same item without its generic parameters — the same type texts with the
+/// opposite answers to every "is this generic?" question), the session serves  A, exactly g fillers, A'  for
+/// gaps g around 256, 512 and 1024, all on one worker of one process. Fillers are healthy items of the same
+/// derives that do not mention A's parameter names.
+pub fn gen_wrap_session(seed: u64, index: u64, c: &Corpus) -> Session {
+    let mut r = Rng::new(seed, index);
+    let focus = ((index / 12) as usize) % workload::N_FAMILIES;
+    let fam: &[&str] = workload::FAMILY_DERIVES[focus];
+    // fillers: healthy, *non-generic* items of the family's derives (they tick whatever counts expansions
+    // without touching what is remembered about A's type texts)
+    let fillers: Vec<usize> = c.base.iter().enumerate().filter(|(_, k)| fam.contains(&k.derive.as_str()) && !workload::is_generic(k)).map(|(i, _)| i).collect();
+    let mut keys: Vec<Key> = Vec::new();
+    let mut reqs: Vec<Request> = Vec::new();
+    let mut filler_keys: Vec<usize> = Vec::new();
+    if fillers.is_empty() {
+        // nothing to fill with: fall back to a plain short session of this index' neighbour
+        return gen_session(seed, index + 1_000_003, c);
+    }
+    for _ in 0..60.min(fillers.len() * 2) {
+        let k = c.base[*r.pick(&fillers)].clone();
+        if !keys.contains(&k) {
+            keys.push(k);
+            filler_keys.push(keys.len() - 1);
+        }
+    }
+    let gaps = [254usize, 255, 256, 257, 511, 512, 513, 1023, 1024];
+    for g in gaps {
+        // a fresh pair per gap
+        let relative = |k: &Key, r: &mut Rng| if r.chance(1, 2) { workload::rename_param_decls(k) } else { workload::strip_generics(k) };
+        let mut a = workload::family(&mut r, focus);
+        let mut tries = 0;
+        let mut a2 = relative(&a, &mut r);
+        while a2.is_none() && tries < 20 {
+            a = workload::family(&mut r, focus);
+            a2 = relative(&a, &mut r);
+            tries += 1;
+        }
+        let a2 = match a2 {
+            Some(x) => x,
+            None => match workload::twin(&a, &mut r) {
+                Some(t) => t,
+                None => continue,
+            },
+        };
+        // either one first
+        let (a, a2) = if r.chance(1, 2) { (a, a2) } else { (a2, a) };
+        keys.push(a);
+        let ka = keys.len() - 1;
+        keys.push(a2);
+        let kb = keys.len() - 1;
+        reqs.push(Request { w: 0, k: ka, mode: Mode::Catch });
+        for _ in 0..g {
+            reqs.push(Request { w: 0, k: *r.pick(&filler_keys), mode: Mode::Catch });
+        }
+        reqs.push(Request { w: 0, k: kb, mode: Mode::Catch });
+    }
+    let env = gen_env(&mut r, &c.env_names);
+    Session {
+        index,
+        segments: vec![Segment {
+            env,
+            sched: Schedule {
+                keys,
+                workers: 1,
+                requests: reqs,
+                prealloc: vec![],
+                stack_pad: 0,
+                worker_stack_kb: 8192,
+                dump_text: false,
+            },
+        }],
+    }
+}
+
 pub fn gen_session(seed: u64, index: u64, c: &Corpus) -> Session {
     let mut r = Rng::new(seed, index);
     // swarm: sizes and mixes are redrawn per session
@@ -369,6 +444,10 @@ pub fn gen_session(seed: u64, index: u64, c: &Corpus) -> Session {
     // sessions hammers each hash-ordered family at least once)
     let hot = index % 12 == 5;
     let focus = ((index / 12) as usize) % workload::N_FAMILIES;
+    // another session in twelve is a *wrap* session (see below)
+    if index % 12 == 11 {
+        return gen_wrap_session(seed, index, c);
+    }
     let big = !hot && r.chance(1, 8);
     workload::SCALE.with(|s| s.set(if big { 4 } else { 1 }));
     let len = if hot { *r.pick(&[1500usize, 3000, 5000]) } else { *r.pick(&[8usize, 12, 20, 20, 30, 40, 60, 60, 100, 160, 250, 400, 20, 40, 60, 1200]) };
@@ -447,7 +526,7 @@ pub fn gen_session(seed: u64, index: u64, c: &Corpus) -> Session {
         keys.push(r.pick(&c.faults).clone());
     }
     // broken relatives of this session's own items: more error paths, some with two problems at once
-    for _ in 0..(if hot { r.range(20, 80) } else { r.below(7) }) {
+    for _ in 0..(if hot { r.range(60, 200) } else { r.below(7) }) {
         let base = r.below(fault_lo.max(1));
         if let Some(b) = workload::breaker(&keys[base].clone(), &mut r) {
             keys.push(b);
